@@ -77,6 +77,16 @@ pub struct Gen {
     pub emitted: usize,
 }
 
+fn tm_contains_bind(tm: &Tm) -> bool {
+    match tm {
+        Tm::Bind(..) => true,
+        Tm::Ref(_) | Tm::Const(_) | Tm::LhsConst(_) | Tm::Shared(_) | Tm::ScopedVar(_) => false,
+        Tm::Map(_, a) | Tm::MapCap(_, a, _) => tm_contains_bind(a),
+        Tm::Map2(_, a, b) | Tm::Scratch(a, b) => tm_contains_bind(a) || tm_contains_bind(b),
+        Tm::Fold(_, _, ts) => ts.iter().any(|t| tm_contains_bind(t)),
+    }
+}
+
 fn f1(rng: &mut Rng) -> F1 {
     match rng.below(7) {
         0 => F1::Lin(1, 1),
@@ -622,7 +632,9 @@ impl Gen {
                         .filter(|d| {
                             !reg[*d].scratch
                                 && reg[*d].weak.as_ref().map_or(false, |x| x.strong_count() > 0)
-                                && !matches!(&*reg[*d].tm, Tm::Bind(..))
+                                // no nested bind inside: while the defining bind is unobserved, a nested
+                                // bind re-running could pull further nodes of that scope in (K1 again)
+                                && !tm_contains_bind(&reg[*d].tm)
                                 && !w.model.nodes.iter().any(|n| n.kind == Kind::Adopted(*d))
                         })
                         .collect();
